@@ -31,7 +31,7 @@ from common import Report, import_pyrefact, tier, seed
 from tlc import MachineryError, run_tlc
 
 PROP = "C19"
-POOL = ["myVar", "my_var", "MY_VAR", "MyVar", "_my_var", "len", "x", "var_1", "_"]
+POOL = ["myVar", "my_var", "MY_VAR", "MyVar", "_my_var", "len", "Len", "x", "var_1", "_"]
 BUILTINS = ["len"]
 
 # scenario: text with {X} {Y} slots; scopes [(id, parent, kind)]; occ in TEXTUAL order [(slot, scope, role)]
@@ -111,6 +111,22 @@ SCENARIOS = [
          text="class Kls:\n    def __init__(self, {X}):\n        self.{Y} = {X}\n\n    def get(self):\n        return self.{Y}\n\n\nprint(Kls({X}=4).get())\n",
          scopes=[("M", "none", "module"), ("K", "M", "class"), ("F", "K", "function"), ("G", "K", "function")],
          occ=[("X", "F", "param"), ("Y", "K", "attr"), ("X", "F", "load"), ("Y", "K", "attr"), ("X", "F", "kw")]),
+    dict(name="param_shadows_module", distinct=False,
+         text="{X} = 1\n\n\ndef fn({Y}):\n    return {Y} + 1\n\n\nprint(fn(5), {X})\n",
+         scopes=[("M", "none", "module"), ("F", "M", "function")],
+         occ=[("X", "M", "store"), ("Y", "F", "param"), ("Y", "F", "load"), ("X", "M", "load")]),
+    dict(name="uses_builtin", distinct=False,
+         text="def fn(items):\n    {X} = sum(items)\n    {Y} = {X} + 1\n    return {Y} + len(items)\n\n\nprint(fn([1, 2]))\n",
+         scopes=[("M", "none", "module"), ("F", "M", "function")],
+         occ=[("X", "F", "store"), ("Y", "F", "store"), ("X", "F", "load"), ("Y", "F", "load")]),
+    dict(name="augmented_local", distinct=False,
+         text="def fn():\n    {X} = 1\n    {X} += 2\n    {Y} = {X}\n    {Y} *= 2\n    return {Y}\n\n\nprint(fn())\n",
+         scopes=[("M", "none", "module"), ("F", "M", "function")],
+         occ=[("X", "F", "store"), ("X", "F", "store"), ("Y", "F", "store"), ("X", "F", "load"), ("Y", "F", "store"), ("Y", "F", "load")]),
+    dict(name="augmented_in_loop", distinct=False,
+         text="def fn(items):\n    {X} = 0\n    for it in items:\n        {X} += it\n        if it:\n            {Y} = {X}\n    return {X} + {Y}\n\n\nprint(fn([1, 2]))\n",
+         scopes=[("M", "none", "module"), ("F", "M", "function")],
+         occ=[("X", "F", "store"), ("X", "F", "store"), ("Y", "F", "store"), ("X", "F", "load"), ("X", "F", "load"), ("Y", "F", "load")]),
     dict(name="three_locals", distinct=False,
          text="def fn():\n    {X} = 1\n    {Y} = 2\n    {Z} = 3\n    return {X} * 100 + {Y} * 10 + {Z}\n\n\nprint(fn())\n",
          scopes=[("M", "none", "module"), ("F", "M", "function")],
@@ -471,11 +487,27 @@ def _chunk(recs):
             if verdict is not None:
                 kind, i, j = verdict
                 ti, tj = toks_b[idx[i]], toks_b[idx[j]]
+                # which occurrence was left behind, and what kind of occurrence is it (for the known-findings signatures)
+                left = [k for k in (idx[i], idx[j]) if toks_a[k][2] == toks_b[k][2]]
+                leftover = "none"
+                if kind == "split" and left:
+                    ln, col = toks_a[left[0]][:2]
+                    parents = {}
+                    for par in ast.walk(res_a.tree):
+                        for ch in ast.iter_child_nodes(par):
+                            parents[id(ch)] = par
+                    for nd in ast.walk(res_a.tree):
+                        if isinstance(nd, ast.Name) and (nd.lineno, nd.col_offset) == (ln, col):
+                            par = parents.get(id(nd))
+                            while isinstance(par, (ast.Tuple, ast.List, ast.Starred)):
+                                par = parents.get(id(par))
+                            leftover = (type(par).__name__ + "-target") if isinstance(nd.ctx, ast.Store) else "load"
+                            break
                 what = (f"{rname}: capture - the occurrences {ti[2]!r} (line {ti[0]}) and {tj[2]!r} (line {tj[0]}) belonged to different bindings and "
                         f"belong to the same one after renaming ({toks_a[idx[i]][2]!r} / {toks_a[idx[j]][2]!r})" if kind == "merge" else
                         f"{rname}: inconsistent renaming - the occurrences {ti[2]!r} (line {ti[0]}) and {tj[2]!r} (line {tj[0]}) belonged to one binding and "
                         f"no longer do ({toks_a[idx[i]][2]!r} / {toks_a[idx[j]][2]!r})")
-                bad.append({"rule": rname, "source": text, "output": out, "what": what, "case": rec, "kind": kind})
+                bad.append({"rule": rname, "source": text, "output": out, "what": what, "case": rec, "kind": kind, "leftover": leftover})
             elif invalid:
                 bad.append({"rule": rname, "source": text, "output": out, "what": f"{rname}: new identifiers {invalid} are not usable identifiers", "case": rec,
                             "kind": "invalid"})
@@ -502,7 +534,15 @@ def main(argv=None) -> int:
     import_pyrefact()
     t = tier()
     rng = random.Random(seed())
-    known = rep.known_entries()
+    # this check describes a failure more precisely than the pipeline checks do: only signatures that use its own
+    # features (leftover-*, scenario-*, kind-*) apply here, so that a recorded finding cannot hide a neighbouring defect
+    known = []
+    for e in rep.known_entries():
+        cls = e.get("class", {})
+        alts = [c for c in (cls if isinstance(cls, list) else [cls])
+                if any(f.startswith(("leftover-", "scenario-", "kind-")) for f in c.get("features", []))]
+        if alts:
+            known.append(dict(e, **{"class": alts}))
     pool = POOL if t != "quick" else POOL
     mc = "\n".join(["---- MODULE RenameMC ----", "EXTENDS Rename", "MC_Scenarios == " + tla_scenarios(), "====", ""])
     cfg = "\n".join(["CONSTANTS", "  Scenarios <- MC_Scenarios", "  Pool = {" + ", ".join(f'"{p}"' for p in pool) + "}",
@@ -531,7 +571,8 @@ def main(argv=None) -> int:
         programs += progs
         for case in bad:
             sh = blame.shape(case["source"], case.get("output") or case["source"])
-            sh = dict(sh, features=list(sh.get("features", [])) + [f"scenario-{case['case']['scenario']}", f"kind-{case.get('kind')}"])
+            sh = dict(sh, features=list(sh.get("features", [])) + [f"scenario-{case['case']['scenario']}", f"kind-{case.get('kind')}",
+                                                                    f"leftover-{case.get('leftover', 'none')}"])
             kf = next((e["id"] for e in known if blame.matches_signature(e, case["rule"], sh, case["source"])), None)
             if kf:
                 rep.known(kf, {"source": case["source"], "output": case.get("output")})
